@@ -29,7 +29,7 @@ pub fn whitespace_chars() -> Vec<char> {
 
 pub fn full_menu() -> Vec<String> {
     let mut m: Vec<String> = whitespace_chars().into_iter().map(|c| c.to_string()).collect();
-    for s in ["/**/", "/* x */", "/* * / */", "/*\n*/", "//c\n", "//\n", " /**/ ", "/**//**/", "\n//\n", "/**/ //x\n", "  ", "\t\n", ""] {
+    for s in ["/**/", "/* x */", "/* * / */", "/*\n*/", "//c\n", "//\n", "/*é*/", "//日本\n", "/***/", " /**/ ", "/**//**/", "\n//\n", "/**/ //x\n", "  ", "\t\n", ""] {
         m.push(s.to_string());
     }
     m
@@ -235,7 +235,7 @@ pub fn run(cfg: &Cfg) -> Report {
     });
     // every comment body up to a length over a hostile alphabet, at every gap of a few fixed sequences
     let bodies = {
-        let chars = ['*', '/', 'a', ' ', '\n', '"', '='];
+        let chars = ['*', '/', 'a', ' ', '\n', '"', '=', 'é', '😀'];
         let mut out: Vec<String> = vec![String::new()];
         let mut frontier = vec![String::new()];
         for _ in 0..cfg.tier.pick(4, 6) {
@@ -300,7 +300,7 @@ pub fn run(cfg: &Cfg) -> Report {
     Report {
         property: ID,
         level: "exploration",
-        rule: format!("every token sequence of length <= {max_len} over a {a}-token alphabet (words, strings containing comment markers, every operator and punctuation token), well-formed or not; per sequence: each gap (incl. before the first and after the last token) takes each of {} separators (the 25 White_Space code points, block and line comments, mixtures, the empty separator) while the other gaps cycle through a core menu, plus all gaps jointly over the {core_n}-entry core menu for sequences of length <= {joint_upto}; a rendering is compared only if the reference lexer still reads the intended token sequence (so fusing renderings are skipped); plus 4 unterminated-comment tails per sequence; plus every comment body up to 4 (quick) / 6 (thorough) characters over `* / a space newline \" =` as a block and as a line comment at every gap of 5 fixed sequences. Non-trivial = sequences of >= 2 tokens; distinct by token sequence", full.len()),
+        rule: format!("every token sequence of length <= {max_len} over a {a}-token alphabet (words, strings containing comment markers, every operator and punctuation token), well-formed or not; per sequence: each gap (incl. before the first and after the last token) takes each of {} separators (the 25 White_Space code points, block and line comments, mixtures, the empty separator) while the other gaps cycle through a core menu, plus all gaps jointly over the {core_n}-entry core menu for sequences of length <= {joint_upto}; a rendering is compared only if the reference lexer still reads the intended token sequence (so fusing renderings are skipped); plus 4 unterminated-comment tails per sequence; plus every comment body up to 4 (quick) / 6 (thorough) characters over `* / a space newline \" = é 😀` as a block and as a line comment at every gap of 5 fixed sequences. Non-trivial = sequences of >= 2 tokens; distinct by token sequence", full.len()),
         nontrivial_set: "nontrivial",
         exhaustive: true,
         bound_completed: format!("token sequences of length {max_len}"),
